@@ -971,9 +971,13 @@ class Executor:
       self.callstack.pop()
     results = []
     for q in live:
+      if self.depth == 0 and len(q.frames) > depth0:
+        q.final_locals = dict(q.frames[depth0])       # ghost: the locals of the function under contract at its exit (for clauses over intermediates)
       q.frames = q.frames[:depth0]
       results.append((q, VNone()))
     for q in mine:
+      if self.depth == 0 and len(q.frames) > depth0:
+        q.final_locals = dict(q.frames[depth0])
       q.frames = q.frames[:depth0]
       if q.outcome[0] == 'return':
         v = q.outcome[1]
